@@ -60,7 +60,13 @@ def anchors(log, sc):
     if not ab:
         return set()
     evs = [x for x in log if x['k'] == 'ev']
-    return {'abandon_at_' + evs[-1]['name'], 'mech_' + ab[0]['mech']}
+    out = {'abandon_at_' + evs[-1]['name'], 'mech_' + ab[0]['mech']}
+    endr = log[-1]
+    if endr['k'] == 'end' and endr['sels']:
+        out.add('selector_observed')        # the logging selector subclass really is the one the session used
+    if endr['k'] == 'end' and endr['socks']:
+        out.add('socket_observed')
+    return out
 
 
 def run(tier, seed):
@@ -71,7 +77,7 @@ def run(tier, seed):
              'mechanisms (break, exception in handler, generator.close(), exception leaving a with-block); gc.collect() afterwards; '
              'non-trivial = distinct (event sequence, mechanism, closing?) triples',
         nontrivial=nontrivial, need_actions=('AppReact', 'RegPoll', 'RegPingTimeout'), anchors=anchors, variants=variants, sample_keys=('ev', 'abandon', 'sock', 'sel', 'end'))
-    need = {'abandon_at_' + e for e in EVENTS} | {'mech_' + m for m in rp.MECHS}
+    need = {'abandon_at_' + e for e in EVENTS} | {'mech_' + m for m in rp.MECHS} | {'selector_observed', 'socket_observed'}
     missing = sorted(need - seen)
     return r.finish(vacuous=('never exercised: %s' % missing) if missing else None)
 
